@@ -64,4 +64,22 @@ theorem idivN_signfill {n : Nat} (hn : 0 < n) (hi lo d : BitVec n)
       rw [if_neg (by omega)]
       rw [BitVec.ofInt_toInt, BitVec.ofInt_toInt]
 
+/-- the dividend `cdq` builds (as the symbolic execution presents it) -/
+theorem idivN_cdq (a d : BitVec 32) :
+    idivN (BitVec.setWidth 32 (if a.msb = true then 4294967295#64 else 0#64)) a d =
+      if d = 0#32 then none
+      else if a = BitVec.intMin 32 ∧ d = -1#32 then none
+      else some (a.sdiv d, a.srem d) := by
+  apply idivN_signfill (by decide)
+  cases a.msb <;> decide
+
+/-- the dividend `cqo` builds -/
+theorem idivN_cqo (a d : BitVec 64) :
+    idivN (if a.msb = true then 18446744073709551615#64 else 0#64) a d =
+      if d = 0#64 then none
+      else if a = BitVec.intMin 64 ∧ d = -1#64 then none
+      else some (a.sdiv d, a.srem d) := by
+  apply idivN_signfill (by decide)
+  cases a.msb <;> decide
+
 end WaVerif.X64
